@@ -525,6 +525,7 @@ func checkC18(c *Check) {
 		}
 		c.Ob("R4", "Read succeeds only if the derived deployment groups validate", rd.Pos(), okg && strings.Contains(Sym(vg.Call.Args[0]), "DeploymentGroups("), "")
 		c.Ob("R4", "Read succeeds only if the derived manifest validates", rd.Pos(), okm && strings.Contains(Sym(vm.Call.Args[0]), ".Manifest("), "")
+		c.manifestValidationShape("R4")
 	}
 	ver := l.Func("sdl", "", "Version")
 	mv := l.Func("sdl", "", "ManifestVersion")
@@ -902,3 +903,91 @@ func sliceHas(v ssa.Value, seen map[ssa.Value]bool, depth int, pred func(ssa.Val
 }
 
 func sdlPos(l *Loaded) token.Pos { return l.Func("sdl", "", "Read").Pos() }
+
+// manifestValidationShape (R4): two shape conditions of the provider-side manifest validation that a translated document
+// has to pass. (a) An environment entry NAME=VALUE is split at its first '=' both where it is validated and where the
+// container is built (a value may itself contain '='). (b) "the manifest exposes at least one service globally" is a
+// statement about the whole manifest: the counter it tests is kept across the loop over groups and tested outside it.
+func (c *Check) manifestValidationShape(rule string) {
+	l := c.L
+	classify := func(fn *ssa.Function, elemOf string) string {
+		kind := ""
+		for _, g := range fnAndClosuresDeep(fn) {
+			for _, call := range callsInOwn(g) {
+				full := calleeFull(call)
+				a := call.Common().Args
+				if !strings.HasPrefix(full, "strings.") || len(a) < 2 {
+					continue
+				}
+				if sep, ok := strConst(a[1]); !ok || sep != "=" {
+					if k, isK := constInt(a[1]); !isK || k != '=' {
+						continue
+					}
+				}
+				if !strings.Contains(Sym(a[0]), elemOf) {
+					continue
+				}
+				k := ""
+				switch full {
+				case "strings.Index", "strings.IndexByte", "strings.IndexRune", "strings.Cut":
+					k = "first"
+				case "strings.SplitN":
+					if n, isN := constInt(a[2]); isN && n == 2 {
+						k = "first"
+					} else {
+						k = "other"
+					}
+				case "strings.LastIndex", "strings.LastIndexByte":
+					k = "last"
+				case "strings.Split":
+					k = "every"
+				default:
+					continue
+				}
+				if kind == "" || kind == k {
+					kind = k
+				} else {
+					kind = "mixed"
+				}
+			}
+		}
+		return kind
+	}
+	vs := l.Func("validation", "", "validateManifestService")
+	cb := l.Func("provider/cluster/kube", "deploymentBuilder", "container")
+	if vs != nil && cb != nil {
+		c.Analysed(fnName(vs))
+		kv, kb := classify(vs, ".Env["), classify(cb, ".Env[")
+		switch {
+		case kv == "" || kb == "":
+			c.Info(rule, "environment entries: split idiom not recognised in validation / container builder, not decided", vs.Pos(), "validation: "+kv+", builder: "+kb)
+		default:
+			c.Ob(rule, "an environment entry is split at its first '=' by the validation and by the container builder alike", vs.Pos(), kv == "first" && kb == "first", "validation splits at the "+kv+" '=', the container builder at the "+kb+": an entry whose value contains '=' is rejected or deployed under another name")
+		}
+	}
+	vg := l.Func("validation", "", "validateManifestGroups")
+	if vg != nil {
+		c.Analysed(fnName(vg))
+		n := 0
+		for _, g := range fnAndClosuresDeep(vg) {
+			eachInstr(g, func(i ssa.Instruction) {
+				bo, ok := i.(*ssa.BinOp)
+				if !ok || bo.Op != token.EQL || !strings.HasSuffix(Sym(bo.X), "globalServiceCount") {
+					return
+				}
+				if k, isK := constInt(bo.Y); !isK || k != 0 {
+					return
+				}
+				n++
+				inLoop := loopHeaderOf(bo.Block()) != nil
+				if li := liftTo(vg, bo); li != nil && loopHeaderOf(li.Block()) != nil {
+					inLoop = true
+				}
+				c.Ob(rule, "the 'no global service' rejection is decided once for the whole manifest", bo.Pos(), !inLoop, "the test sits inside the loop over groups: a group without a globally exposed service rejects a manifest whose other group has one")
+			})
+		}
+		if n == 0 {
+			c.Info(rule, "global-service test not found in validateManifestGroups, not decided", vg.Pos(), "")
+		}
+	}
+}
